@@ -1042,6 +1042,11 @@ class Interp:
                         return ABound(obj, mth)
                     return AFuncRef(mth)           # static method, or a plain function taken from the class (explicit self)
             raise AnalysisError(f"class attribute {obj.name}.{name}")
+        if isinstance(obj, AForeign) and obj.kind == 'finfo':
+            vals = {'eps': Fraction(1, 2 ** 52), 'tiny': Fraction(1, 2 ** 1022), 'smallest_normal': Fraction(1, 2 ** 1022), 'resolution': Fraction(1, 10 ** 15)}
+            if name in vals:
+                return Rat.const(vals[name])
+            raise AnalysisError(f"np.finfo(..).{name}")
         if isinstance(obj, AForeign):
             if name not in obj.has:
                 raise AbstractRaise('AttributeError', f"'{obj.kind}' object has no attribute '{name}'")
